@@ -1192,10 +1192,15 @@ class C16(Monitor):
         pr = bk.proto(st.p)
         if pr is None:
             return
-        wellformed = [pk for raw, pk in st.completed if pk is not None and not (pk['type'] == 'PUBLISH' and (pk['qos'] == 3 or (pk['qos'] == 0 and pk['dup'])))]
+        # (a QoS 0 PUBLISH with DUP set is accepted as received, as monitor C06 expects: 3.1 does not forbid it and the property does
+        #  not make the client the broker's validator; QoS 3 is not a QoS level at all)
+        wellformed = [pk for raw, pk in st.completed if pk is not None and not (pk['type'] == 'PUBLISH' and pk['qos'] == 3)]
         store = self.__dict__.setdefault('store', {}).setdefault(pr['addr'], {})
         released = []
-        for pk in wellformed:
+        # the inbound QoS 2 store only moves when the packet is honoured: connected state of a subscribing profile
+        # (a PUBLISH or PUBREL received while connecting, or by a publisher-only client, is ignored and must not be delivered later)
+        active = bk.profile in SUB_CAP and st.pre_state == 'C'
+        for pk in (wellformed if active else []):
             if pk['type'] == 'PUBLISH' and pk['qos'] == 2:
                 store[pk['id']] = (pk['topic'], pk['payload'], pk['retain'])
             if pk['type'] == 'PUBREL' and pk['id'] in store:
@@ -1333,7 +1338,9 @@ class C20(Monitor):
                 if topics is None:
                     return 'invalid'
                 if not topics:
-                    return None       # an empty list is neither listed as valid nor as invalid
+                    # an empty list: a SUBSCRIBE/UNSUBSCRIBE without payload is a protocol violation [MQTT-3.8.3-3, 3.10.3-2];
+                    # C18 forbids writing it, so the call cannot be accepted
+                    return 'invalid'
                 for t in topics:
                     name = t[0] if k == 'subscribe' else t
                     if len(name.encode('utf-8')) > 65535:
